@@ -79,16 +79,7 @@ package unmarshal
 // function of the three accumulators only is by reading.) The hash function
 // appends its result to the ghost log hseq[0..hcount) and extends the three
 // folds of the log by one step (definition of the folds, see specs/hash.spec).
-//@ func github.com/metrico/qryn/writer/utils/heputils/cityhash102.Hash128to64
-//@   flag function
-//@   ghostset hseq = upd(hseq, hcount, result)
-//@   ghostset hcount = hcount + 1
-//@   modifies hseq, hcount
-//@   requires hcount >= 0
-//@   ensures result == h128(x[0], x[1])
-//@   ensures foldAdd(hseq, hcount) == foldAdd(old(hseq), old(hcount)) + result
-//@   ensures foldXor(hseq, hcount) == foldXor(old(hseq), old(hcount)) ^ result
-//@   ensures foldMix(hseq, hcount) == foldMix(old(hseq), old(hcount)) * (1779033703 + 2 * result)
+// (the contract of cityhash102.Hash128to64 - ghost log and definition - is in that package's contract file)
 //@ func fingerprintLabels [C04]
 //@   flag arith=bv
 //@   flag checks=-index
@@ -300,12 +291,17 @@ package unmarshal
 //@   modifies nothing
 
 // hex text -> leng/2 raw bytes (left-padded with zeros), or an error
+// A hex id shorter than the full width is an id with its leading zeroes stripped: it
+// is padded with '0' digits on the LEFT, its own digits stay at the right end.
 //@ func (*zipkinDecoderV2).decodeHexStr [C06]
 //@   requires leng >= 0 && leng % 2 == 0
 //@   modifies nothing
 //@   ensures result1 == nil ==> len(result0) == leng / 2
+//@   at hex.Decode$ short-id-padded-with-zero-digits-on-the-left: old(len(hexStr)) < leng ==> (forall k int :: 0 <= k && k < leng - old(len(hexStr)) ==> int(arg1[k]) == 48)
+//@   at hex.Decode$ own-digits-stay-at-the-right-end: old(len(hexStr)) < leng ==> (forall k int :: 0 <= k && k < old(len(hexStr)) ==> arg1[leng - old(len(hexStr)) + k] == old(hexStr[k]))
 //@   loop 1:
-//@     invariant 0 <= i
+//@     invariant 0 <= i && i <= leng && len(prefix) == leng
+//@     invariant forall k int :: 0 <= k && k < i ==> int(prefix[k]) == 48
 //@     modifies elems(prefix)
 
 //@ func (*zipkinDecoderV2).stringOrInt64
